@@ -1,5 +1,6 @@
 /-
-C05 helper lemmas, part i: a Fetch that releases nothing and does not change the state repeats forever.
+C05 helper lemmas, part i: the scheduler BEFORE the repair — a Fetch that releases nothing and does not change the
+state repeats forever.
 Core Lean only.
 -/
 import SigModel.Model.Sched
@@ -9,13 +10,14 @@ set_option linter.unusedVariables false
 namespace SigModel.Lemmas.C05
 open SigModel.Sched
 
-/-- a Fetch that releases nothing and leaves the state unchanged repeats for ever: no EOF, nothing more released -/
-theorem stuck_forever (m : Mode) (mb : Nat) (st : St) (h : fetch m mb st = some ([], st)) :
-    ∀ fuel, (runFetch m mb fuel st).2 = false ∧ (runFetch m mb fuel st).1.flatten = []
-  | 0 => by simp [runFetch]
+/-- (scheduler before the repair) a Fetch that releases nothing and leaves the state unchanged repeats for ever:
+no EOF, nothing more released -/
+theorem stuck_forever_old (m : Mode) (mb : Nat) (st : St) (h : fetchOld m mb st = some ([], st)) :
+    ∀ fuel, (runFetchOld m mb fuel st).2 = false ∧ (runFetchOld m mb fuel st).1.flatten = []
+  | 0 => by simp [runFetchOld]
   | fuel + 1 => by
-    have ih := stuck_forever m mb st h fuel
-    simp only [runFetch, h, List.flatten_cons, List.nil_append]
+    have ih := stuck_forever_old m mb st h fuel
+    simp only [runFetchOld, h, List.flatten_cons, List.nil_append]
     exact ih
 
 end SigModel.Lemmas.C05
